@@ -2,7 +2,7 @@
 
 Driver: drv/c06_ns.cpp (+ drv/c06_model.hpp: the independent scoping stack and the DOM L3 Appendix B lookup algorithms).
 Notes: docs/c06.md."""
-from .checks import _sum
+from .checks import _sum, _px
 
 
 def _ns(name, *args, **kw):
@@ -23,7 +23,7 @@ def _coverage(rs):
     return {
         # every (document, XML version) pair is distinct by construction and classified by the model (and by expat for XML 1.0);
         # every legal builder program is a distinct operation sequence whose tree was walked with all lookups
-        "distinct_nontrivial": docs + _sum(rs, "builder_programs_checked"),
+        "distinct_nontrivial": docs + _sum(rs, "builder_programs_checked") + _sum(rs, "ref_wellformed") + _sum(rs, "ref_malformed"),
         "parses": _sum(rs, "parses"),
         "nonvacuity": {
             "documents_namespace_wellformed": _sum(rs, "model_ok"),
@@ -48,6 +48,7 @@ def _coverage(rs):
             "isDefaultNamespace_true": _sum(rs, "isDefaultNamespace_true"),
             "builder_programs_checked": _sum(rs, "builder_programs_checked"),
             "builder_programs_with_inapplicable_step": _sum(rs, "builder_programs_with_inapplicable_step"),
+            "dtd_rich_documents_vs_expat_ns_mode": _sum(rs, "ref_wellformed") + _sum(rs, "ref_malformed"),
             "known_defect_hits_skipped_outside_witness_space": _prefixed(rs, "known_defect_hits:"),
         },
     }
@@ -76,7 +77,10 @@ SPEC = dict(
          "(k=3 quick, 4 thorough). witness = the minimal repro of every entry of the driver's KNOWN_DEFECTS list, checked strictly. Plans (part = space:alphabets, ':v11' = all "
          "documents also as XML 1.1): quick = witness, one:mid, one:small:v11, one:attr2, two:env6:mid, two:env:use2, sib:env4:decl1:use, ladder:quick, build:3; thorough = witness, "
          "one:full, two:env:mid, two:env:use2, two:env4:mid2, two:envs:small:v11, three:env6:midmod:leaf, sib:env6:decl1:use, ladder:full, build:4. Non-trivial = (document, version) "
-         "pairs classified by the model + legal builder programs.",
+         "pairs classified by the model + legal builder programs. dtd-defaulted-declarations = the DTD-rich structured space of drv/parsex.cpp (12 prologs x 5 root "
+         "attribute variants x words <= k over 40 content items, k=1 quick / 2 thorough), one prolog of which declares xmlns / xmlns:p through ATTLIST defaults and #FIXED "
+         "values that the instance overrides (root variant xmlns:p='urn:doc' p:a='1') or relies on (<p:k p:b='2'>, <c/> with a defaulted xmlns): verdict and expanded names of every "
+         "API x scanner configuration against expat in namespace mode.",
     trusted_base=["expat 2.5.0 (namespace mode, Namespaces 1.0) as second oracle for XML 1.0 documents", "drv/c06_model.hpp (scoping stack, Appendix B)", "clang 14 ASan+UBSan"],
     assumptions=[
         "XML 1.1 documents (prefix un-declaration) are judged by the scoping-stack model only: expat implements Namespaces 1.0",
@@ -98,9 +102,11 @@ SPEC = dict(
     # counters "cases:<part>"; alphabet sizes are under bounds.parts in the evidence.
     runs=dict(
         quick=[_ns("quick-plan-depth2", "--space", "multi", "--parts",
-                   "witness,one:mid,one:small:v11,one:attr2,two:env6:mid,two:env:use2,sib:env4:decl1:use,ladder:quick,build:3")],
+                   "witness,one:mid,one:small:v11,one:attr2,two:env6:mid,two:env:use2,sib:env4:decl1:use,ladder:quick,build:3"),
+               _px("dtd-defaulted-declarations", "--space", "s4", "--k", 1)],
         thorough=[_ns("thorough-plan-depth3", "--space", "multi", "--parts",
-                      "witness,one:full,two:env:mid,two:env:use2,two:env4:mid2,two:envs:small:v11,three:env6:midmod:leaf,sib:env6:decl1:use,ladder:full,build:4")],
+                      "witness,one:full,two:env:mid,two:env:use2,two:env4:mid2,two:envs:small:v11,three:env6:midmod:leaf,sib:env6:decl1:use,ladder:full,build:4"),
+                  _px("dtd-defaulted-declarations", "--space", "s4", "--k", 2)],
     ),
     manifest=dict(
         text="Every document of the stated shape products (depth <= 2 quick / <= 3 thorough), the map-growth and >100-attribute ladders and every DOM builder program <= k steps is "
